@@ -10,6 +10,10 @@ localisation only: a disagreement with the own-width rule that the positional mi
 reported as `auer-width-by-position` (DESIGN §5 D2 — reproduced on the original tree, since
 repaired in /repo; corpus/C03/d2-*.json are its regression cases).
 """
+import os
+
+os.environ.setdefault("OMP_NUM_THREADS", "1")
+
 from harness.props import c02 as base
 
 TITLE = "P-entry (pareto_updating / epsiloncovering), U and Auer's hold-back vs Lean model"
